@@ -19,6 +19,17 @@ CLAIMED = {
              "checked on the implementation by measurement (runtime.MemStats), not proved.",
         technique="Rocq proof by induction on fuel over an executable decoder model + differential correspondence (extracted OCaml vs Go)",
         design="4 (C12)"),
+    "C05": dict(
+        text="Machine-checked theorems over the executable model of kex.SessionCrypter.Decrypt / cose.Encrypt0.Decrypt / Mac0 (suite and algorithm "
+             "tables regenerated from the compiled packages): acceptance implies tag 16 + AEAD open over the Enc_structure for AEAD suites and tag 17 + "
+             "HMAC(SVK, MAC_structure of the re-encoded inner Encrypt0) = tag before any decryption for encrypt-then-MAC suites, with algorithm header, "
+             "key size and IV size pinned; no panic for any wire bytes for every registered suite. Tied to the code by ~12k differential cases per quick "
+             "run (7 suites, bit flip in every byte, MAC stripping (+ciphertext flips), re-tagging, IV/alg/ciphertext surgery, cross-suite, cross-session, "
+             "plaintext injection) with stdlib AES/HMAC as oracle and an implementation-only monitor (rejected or identical plaintext).",
+        note=COMMON_NOTE + "Partial: the protocol-level clauses (every TO2 message from SetupDevice on is sent through the crypter, fresh IV per message, "
+             "a rejected message fails the run) are exercised by the C08/C02 protocol harness, not proved here; secrecy of AES/HMAC is not claimed.",
+        technique="Rocq proof (acceptance-structure theorems, no-panic over a finite regenerated suite table) + differential correspondence",
+        design="4 (C05)"),
     "C13": dict(
         text="Machine-checked theorems over the executable model of cose.Sign1.Verify / Mac0.Digest (on the CBOR codec model, algorithm "
              "registries regenerated from the compiled package): no panic for any object/key/payload/AAD; acceptance implies the primitive "
